@@ -368,6 +368,11 @@ func ReadFromTeletext(r io.Reader, o TeletextOptions) (s *Subtitles, err error) 
 			return
 		}
 
+		// The demuxer may return no data when it reaches the end of the stream
+		if d == nil {
+			continue
+		}
+
 		// We only parse PES data
 		if d.PES == nil {
 			continue
@@ -473,6 +478,11 @@ func teletextPID(dmx *astits.Demuxer, o TeletextOptions) (pid uint16, err error)
 			}
 			err = fmt.Errorf("astisub: fetching next data failed: %w", err)
 			return
+		}
+
+		// The demuxer may return no data when it reaches the end of the stream
+		if d == nil {
+			continue
 		}
 
 		// PMT data
